@@ -169,3 +169,134 @@ Example C19_checker_example :
   (* and it is not vacuous: forwarding the linear arguments cannot pass as sinusoidal *)
   fwd_check rfkick_ctors dyn_linear false sinusoidal_names sinusoidal_want = false.
 Proof. vm_compute. auto. Qed.
+
+(** * (3) for the schedule main() actually executes - the program generated from src/main.cpp
+
+    [Gen_MainLoop.main_prog] is regenerated from main() on every run (translate/mainloop2coq.py);
+    it contains the RF statements of main: `rfm->apply()` inside the step ([Apply MRF]) and
+    `hdf_file->appendRFKicks(drfm->getPastModulation())` in the output block and in the final block
+    ([Append ARFKicks] under `if (drfm)`).  In the driver model (Model/Driver.v) the dynamic map is
+    its queue [mq] (front first) and past list [past]; [rf_of K (file s)] is the concatenation of
+    all flushed chunks = the rows of /RFKicks/data.  [sig] is the Display::abort schedule of C14
+    (SIGINT at any set of hook points), [steps_done] the number of loop iterations the run executes.
+    Names of the driver model are written qualified ([Driver.run] ...) because Model/DynRF.v uses the
+    same short names for the queue machine. *)
+From Inovesa Require Model.Driver Gen.Gen_MainLoop Proofs.DriverP Proofs.DriverRFP Proofs.DriverMainP
+  Proofs.DriverRFMainP Model.DriverRF Model.DriverInst.
+Local Open Scope Z_scope.
+
+(** the per-run obligation: in the generated program the RF map is applied exactly once per loop
+    iteration, at top level, and nowhere else; with a results file and a dynamic map the final
+    block ends with the past list flushed (reflection: [vm_compute] on the generated term) *)
+Theorem C19_main_prog_rf_shape : DriverRFP.rf_checker Gen_MainLoop.main_prog = true.
+Proof. exact DriverMainP.main_rf_checked. Qed.
+Print Assumptions C19_main_prog_rf_shape.
+
+(** for every kernel record, every number of steps, output cadence, save cadence, renormalisation
+    schedule, wake on/off and every signal schedule: /RFKicks/data of the finished (or aborted) run
+    is exactly the list of records used by the executed steps 0..m-1, in order - none lost, none
+    duplicated - nothing is left pending in the map and the queue holds the unused rest *)
+Theorem C19_main_prog_records :
+  forall (K : Driver.kern) (sig : Z -> bool) (cf : Driver.cfg) (s0 : Driver.st K),
+    Driver.hdf cf = true -> Driver.dynrf cf = true ->
+    DriverRFP.rf_of K (Driver.file s0) = [] -> Driver.past s0 = [] ->
+    (Z.to_nat (Driver.laststep cf) <= List.length (Driver.mq s0))%nat ->
+    let m := DriverP.steps_done K sig cf Gen_MainLoop.main_prog s0 in
+    DriverRFP.rf_of K (Driver.file (Driver.run sig cf Gen_MainLoop.main_prog s0)) = firstn m (Driver.mq s0) /\
+    Driver.past (Driver.run sig cf Gen_MainLoop.main_prog s0) = [] /\
+    Driver.mq (Driver.run sig cf Gen_MainLoop.main_prog s0) = skipn m (Driver.mq s0).
+Proof. exact DriverRFMainP.main_run_records. Qed.
+Print Assumptions C19_main_prog_records.
+
+(** the same at every loop head j (i.e. after every executed step, whatever was flushed so far):
+    written rows followed by the pending ones are the first j records *)
+Theorem C19_main_prog_records_at_every_step :
+  forall (K : Driver.kern) (sig : Z -> bool) (cf : Driver.cfg) (s0 : Driver.st K) (j : nat),
+    Driver.dynrf cf = true -> DriverRFP.rf_of K (Driver.file s0) = [] -> Driver.past s0 = [] ->
+    (j <= List.length (Driver.mq s0))%nat ->
+    DriverRFP.rf_of K (Driver.file (DriverP.heads K sig cf Gen_MainLoop.main_prog s0 j)) ++
+      Driver.past (DriverP.heads K sig cf Gen_MainLoop.main_prog s0 j) = firstn j (Driver.mq s0) /\
+    Driver.mq (DriverP.heads K sig cf Gen_MainLoop.main_prog s0 j) = skipn j (Driver.mq s0).
+Proof. exact DriverRFMainP.main_heads_records. Qed.
+Print Assumptions C19_main_prog_records_at_every_step.
+
+(** with the queue model of Model/DynRF.v plugged into the driver: the kick of step i of the
+    generated program was computed by `_calcKick` from record i *)
+Theorem C19_main_prog_kick_of_step :
+  forall (K0 : Driver.kern) (F : Fld) (sin : F -> F) (m : rfmap F)
+         (kickmap : list F -> Driver.tG K0 -> Driver.tG K0)
+         (trk : bool -> Driver.map -> Driver.tW K0 -> list F -> Driver.tRng K0 -> Driver.tTr K0 -> Driver.tTr K0 * Driver.tRng K0)
+         (sig : Z -> bool) (cf : Driver.cfg) (s0 : Driver.st (DriverRF.rfK K0 F sin m kickmap trk)) (i : nat) (e : modn F),
+    Driver.dynrf cf = true -> nth_error (Driver.mq s0) i = Some e ->
+    Driver.rfo (DriverP.heads (DriverRF.rfK K0 F sin m kickmap trk) sig cf Gen_MainLoop.main_prog s0 (S i)) =
+    write_prefix (calc_kick sin m (fst e) (snd e))
+                 (Driver.rfo (DriverP.heads (DriverRF.rfK K0 F sin m kickmap trk) sig cf Gen_MainLoop.main_prog s0 i)).
+Proof. exact DriverRFMainP.main_kick_of_step. Qed.
+Print Assumptions C19_main_prog_kick_of_step.
+
+(** without a results file nothing is written: the records stay in the map (conservation);
+    with the static map no record exists at all *)
+Theorem C19_main_prog_conservation :
+  forall (K : Driver.kern) (sig : Z -> bool) (cf : Driver.cfg) (s0 : Driver.st K),
+    (Driver.dynrf cf = false \/
+     (Driver.dynrf cf = true /\ (Z.to_nat (Driver.laststep cf) <= List.length (Driver.mq s0))%nat)) ->
+    DriverRFP.tot K (Driver.run sig cf Gen_MainLoop.main_prog s0) = DriverRFP.tot K s0.
+Proof.
+  exact (fun K sig cf s0 H => match H with
+    | or_introl Hd => DriverRFMainP.main_run_static K sig cf s0 Hd
+    | or_intror (conj Hd Hl) => DriverRFMainP.main_run_nofile K sig cf s0 Hd Hl end).
+Qed.
+Print Assumptions C19_main_prog_conservation.
+
+(** non-vacuity on the executable instance (records numbered 0,1,...): 8 steps, output every 3rd
+    step, SIGINT at hook point 130: 5 steps are executed; chunks [] (step 0) and [0;1;2] (step 3)
+    were flushed by output blocks, [3;4] by the final block; nothing pending *)
+Example C19_main_prog_example :
+  let o := DriverInst.model_run (Driver.mkcfg 8 3 1 0 true true true) 130 false 28 in
+  (DriverInst.o_k o, DriverInst.o_rf o, DriverInst.o_pending o) = (5, [(0, []); (3, [0; 1; 2]); (5, [3; 4])], []).
+Proof. vm_compute. reflexivity. Qed.
+
+(** * (4) with what main() passes to the constructors (Gen/Gen_ModStep.v, regenerated from src/main.cpp)
+
+    [main_modampl lin opt], [main_modtimeincrement lin opt] are the expressions main() passes as
+    `modampl` and `modtimeincrement` to the linear / sinusoidal DynamicRFKickMap constructor, as
+    functions of the option getters ([opt "getX"]) and of the synchrotron frequency [opt "fs"].
+    [dt_spec]: duration of one step from the options alone - 1/(f_rev StepsPerRevolution) when
+    StepsPerRevolution > 0 (it overrides StepsPerTs), else 1/(f_s max(StepsPerTs,1));
+    [ampl_spec]: RFPhaseModAmplitude in rad (negative values clamped to 0). *)
+From Inovesa Require Import Gen.Gen_ModStep Proofs.ModStepP.
+Local Open Scope R_scope.
+
+Theorem C19_main_passes_configured_modulation :
+  forall (lin : bool) (opt : string -> R),
+    opt "fs"%string <> 0 -> opt "getRevolutionFrequency"%string <> 0 ->
+    main_modtimeincrement lin opt = opt "getRFPhaseModFrequency"%string * dt_spec opt /\
+    main_modampl lin opt = ampl_spec opt.
+Proof. exact (fun lin opt H1 H2 => conj (main_modstep_is_fmod_dt lin opt H1 H2) (main_modampl_is_configured lin opt)). Qed.
+Print Assumptions C19_main_passes_configured_modulation.
+
+(** end to end: pure sinusoidal modulation (both spreads zero) has the configured amplitude and
+    frequency: the record of step k is (syncphase + A sin(2 pi f_mod t_k), 1) with t_k = k dt *)
+Theorem C19_modulation_as_configured :
+  forall (lin : bool) (fsqrt : R -> R) (sync : R) (opt cenv : string -> R) (noise : nat -> R) (steps k : nat),
+    cenv "phasespread"%string = 0 -> cenv "amplspread"%string = 0 ->
+    cenv "modampl"%string = main_modampl lin opt -> cenv "modtimeincrement"%string = main_modtimeincrement lin opt ->
+    opt "fs"%string <> 0 -> opt "getRevolutionFrequency"%string <> 0 -> (k < steps)%nat ->
+    let d := if lin then dyncfg_linear RF fsqrt (2 * PI) cenv else dyncfg_sinusoidal RF fsqrt (2 * PI) cenv in
+    nth_error (calc_modulation (K:=RF) sin sync d noise steps) k =
+    Some (sync + ampl_spec opt * sin (2 * PI * opt "getRFPhaseModFrequency"%string * (INR k * dt_spec opt)), 1).
+Proof. exact modulation_as_configured. Qed.
+Print Assumptions C19_modulation_as_configured.
+
+(** the queue is as long as the loop can run: both constructor calls of main() pass, as `steps`,
+    the very variable that bounds the main loop, and main() never reassigns it (hypothesis
+    [laststep <= length mq] of C19_main_prog_records) *)
+Theorem C19_main_queue_covers_loop : main_dyn_steps_arg_is_loop_bound = true.
+Proof. exact main_steps_arg_checked. Qed.
+Print Assumptions C19_main_queue_covers_loop.
+
+(** non-vacuity: 9 MHz revolution frequency, f_s = 9 kHz, 0.02 steps per revolution
+    (= 20 per synchrotron period), whatever -N says: dt = 1/(9e6 * 0.02) *)
+Example C19_dt_example :
+  ex_opt "fs"%string <> 0 /\ ex_opt "getRevolutionFrequency"%string <> 0 /\ dt_spec ex_opt = / 180000.
+Proof. exact dt_example. Qed.
